@@ -541,6 +541,19 @@ def digest_form(W, ev, t):
         if is_call(t) and callee_name(t[1]) in values.VIEW_NAMES + ("to_vec", "to_owned", "collect", "copied", "cloned", "iter", "into_iter", "into", "from") and t[2]:
             t = values.strip_payload(t[2][0])
             continue
+        if isinstance(t, tuple) and t and t[0] == "obj":
+            # `let mut out = [0u8; N]; out.copy_from_slice(&digest[..N]); out`
+            src = array_copy_source(W, t)
+            if src is None:
+                break
+            t = values.strip_payload(src)
+            continue
+        if isinstance(t, tuple) and t and t[0] == "field" and t[2] == "0" and is_call(t[1]) and callee_name(t[1][1]) in ("split_at", "split_at_checked") and len(t[1][2]) == 2 \
+                and t[1][2][1][0] == "int":
+            # `digest.split_at(n).0`: the first n bytes
+            take = t[1][2][1][1] if take is None else min(take, t[1][2][1][1])
+            t = values.strip_payload(t[1][2][0])
+            continue
         if is_call(t) and callee_name(t[1]) == "take" and len(t[2]) == 2 and t[2][1][0] == "int":
             take = t[2][1][1] if take is None else min(take, t[2][1][1])
             t = values.strip_payload(t[2][0])
@@ -1298,3 +1311,55 @@ def outparam_wrapper_value(W, fn, ev, obj, use_bb):
         args = tuple(t for i, t in enumerate(a) if i != outpos[0])
         return ("call", R, args, (fn.path, cb))
     return None
+
+
+def const_bytes(W, t, depth=0):
+    """The byte string a term certainly denotes, or None: a byte literal, `[v; n]`, `x.to_le_bytes()` / `to_be_bytes()` of an integer constant
+    (u64::MIN, u64::MAX ..), a constant item, or an object initialised with one of these and never written afterwards."""
+    if not isinstance(t, tuple) or not t or depth > 5:
+        return None
+    t = values.strip_payload(t)
+    if t[0] == "bytes":
+        return bytes(t[1])
+    if t[0] == "repeat" and isinstance(t[1], tuple) and t[1][0] == "int" and isinstance(t[2], int) and 0 <= t[1][1] < 256:
+        return bytes([t[1][1]]) * t[2]
+    if t[0] == "obj":
+        return const_bytes(W, W.frozen_init(t), depth + 1)
+    if t[0] == "agg" and t[1] == "array" and all(isinstance(x, tuple) and x[0] == "int" and 0 <= x[1] < 256 for x in t[2]):
+        return bytes(x[1] for x in t[2])
+    if is_call(t):
+        nm = callee_name(t[1])
+        if nm in ("to_le_bytes", "to_be_bytes") and t[2] and isinstance(t[2][0], tuple) and t[2][0][0] == "int":
+            w = le_written(W, t)
+            if w and w.get("width"):
+                try:
+                    return int(t[2][0][1]).to_bytes(w["width"], "little" if nm == "to_le_bytes" else "big", signed=bool(w.get("signed")))
+                except OverflowError:
+                    return None
+        if nm in values.VIEW_NAMES + ("to_vec", "to_owned", "clone", "into") and t[2]:
+            return const_bytes(W, W.expand(t[2][0]), depth + 1)
+    e = W.expand(t)
+    if e != t:
+        return const_bytes(W, e, depth + 1)
+    return None
+
+
+def array_copy_source(W, obj):
+    """`obj` is a zero-initialised array that is overwritten as a whole by exactly one copy_from_slice / clone_from_slice and never written
+    otherwise: returns the source term (the copy has the source's bytes; copy_from_slice panics unless the lengths agree), else None."""
+    if not (isinstance(obj, tuple) and obj and obj[0] == "obj"):
+        return None
+    init = W.obj_init(obj)
+    if not (isinstance(init, tuple) and init and init[0] == "repeat"):
+        return None
+    ev = W.ev(obj[1])
+    fn = ev.fn
+    muts = [(b, callee_name(callee), argi) for (b, callee, argi, ap) in ev.events_on(obj[2]) if fn.blocks[b].term["arg_tys"][argi].startswith("&mut")]
+    if len(muts) != 1 or muts[0][1] not in ("copy_from_slice", "clone_from_slice") or muts[0][2] != 0:
+        return None
+    if any(k == "partial" for (b, i, k) in fn.defs().get(obj[2], [])):
+        return None
+    a = ev.call_args(muts[0][0])
+    if values.strip_payload(a[0]) != obj:
+        return None     # only part of the array is written
+    return a[1]
